@@ -235,13 +235,11 @@ def e_marks(doc, rnd):
     doc["structures"].append({"name": "VerifDeprecated", "properties": [prop("old", S, True, deprecated="use new"), prop("new", S, True, sinceTags=["3.18.0", "3.18.1 - changed"])], "deprecated": "gone soon"})
     host = struct(doc, optional_sites(doc, rnd, 1)[0])
     host["properties"] += [prop("verifProposed", ref("VerifProposed"), True, proposed=True), prop("verifDeprecated", ref("VerifDeprecated"), True)]
-    # plain (non-`or`) aliases carry marks too
-    doc["typeAliases"] += [
-        {"name": "VerifProposedAlias", "type": ref("VerifProposed"), "proposed": True, "since": "3.18.0"},
-        {"name": "VerifProposedList", "type": arr(ref("VerifProposed")), "proposed": True},
-        {"name": "VerifDeprecatedName", "type": S, "deprecated": "use string"},
-        {"name": "VerifProposedChoice", "type": {"kind": "or", "items": [ref("VerifProposed"), ref("VerifDeprecated")]}, "proposed": True},
-    ]
+    # marks on existing plain (non-`or`) aliases: base-typed, array-typed and reference-typed ones
+    for an, mark in (("Pattern", {"deprecated": "use GlobPattern", "since": "3.17.0"}), ("DocumentSelector", {"deprecated": "selectors are going away"}), ("RegularExpressionEngineKind", {"sinceTags": ["3.18.0"], "deprecated": "unused"})):
+        for a in doc["typeAliases"]:
+            if a["name"] == an:
+                a.update(mark)
     add_request(doc, "verif/proposed", "VerifProposedRequest", ref("VerifProposed"), orn(ref("VerifProposed")), proposed=True, since="3.18.0")
     add_notification(doc, "verif/proposedNote", "VerifProposedNoteNotification", ref("VerifProposed"), proposed=True)
 
@@ -257,6 +255,46 @@ def e_remove_optional(doc, rnd):
 def e_literal_optional_middle(doc, rnd):
     doc["structures"].append({"name": "VerifStatusParams", "properties": [prop("details", lit([prop("message", S), prop("code", I, True), prop("source", S)]))]})
     add_notification(doc, "window/verifStatus", "VerifStatusNotification", ref("VerifStatusParams"))
+
+
+def e_name_shapes(doc, rnd):
+    """Names that stress the case conversions and the keyword handling of every plugin.  Kept inside the naming discipline every LSP
+    name obeys (lowerCamelCase words; no consecutive capitals such as `isHTML`, whose wire name the snake/camel derivation of the
+    Python and Rust packages cannot reproduce; not `self`, which is no keyword but collides with the attrs-generated __init__)."""
+    doc["structures"].append(
+        {
+            "name": "VerifNames",
+            "properties": [prop("uri2", S, True), prop("utf8Offset", U, True), prop("x", S, True), prop("a1b2C3", S, True), prop("maxLineLength", U), prop("kind", S, True), prop("match", S, True), prop("async", B, True)],
+        }
+    )
+    doc["enumerations"].append({"name": "VerifWords", "type": S, "values": [{"name": "None", "value": "none"}, {"name": "True", "value": "true"}, {"name": "class", "value": "class"}, {"name": "UTF8", "value": "utf-8"}, {"name": "lowerCamel", "value": "lowerCamel"}]})
+    struct(doc, optional_sites(doc, rnd, 1)[0])["properties"] += [prop("verifNames", ref("VerifNames"), True), prop("verifWords", ref("VerifWords"), True)]
+
+
+def e_nested_containers(doc, rnd):
+    host = struct(doc, optional_sites(doc, rnd, 1)[0])
+    host["properties"] += [
+        prop("verifGrid", arr(arr(U)), True),
+        prop("verifRangesByUri", {"kind": "map", "key": URI, "value": arr(ref("Range"))}, True),
+        prop("verifPairs", arr({"kind": "tuple", "items": [U, U]}), True),
+        prop("verifMapOfMaps", {"kind": "map", "key": S, "value": {"kind": "map", "key": S, "value": B}}, True),
+        prop("verifNullableList", orn(arr(S)), True),
+    ]
+
+
+def e_message_shapes(doc, rnd):
+    """Requests / notifications using every optional message field."""
+    doc["structures"] += [
+        {"name": "VerifQueryParams", "properties": [prop("query", S)], "mixins": [ref("WorkDoneProgressParams"), ref("PartialResultParams")]},
+        {"name": "VerifQueryRegistrationOptions", "properties": [prop("deep", B, True)], "extends": [ref("TextDocumentRegistrationOptions")]},
+        {"name": "VerifQueryError", "properties": [prop("retry", B)]},
+        {"name": "VerifEmpty", "properties": []},
+    ]
+    add_request(doc, "textDocument/verifQuery", "VerifQueryRequest", ref("VerifQueryParams"), orn(arr(ref("Location"))), partialResult=arr(ref("Location")), registrationOptions=ref("VerifQueryRegistrationOptions"), errorData=ref("VerifQueryError"))
+    add_request(doc, "verif/count", "VerifCountRequest", None, U)
+    add_request(doc, "verif/names", "VerifNamesRequest", ref("VerifEmpty"), arr(S), messageDirection="serverToClient")
+    add_notification(doc, "verif/ping", "VerifPingNotification", None)
+    add_notification(doc, "textDocument/verifDidQuery", "VerifDidQueryNotification", ref("VerifQueryParams"), messageDirection="clientToServer", registrationOptions=ref("VerifQueryRegistrationOptions"))
 
 
 EDITS: List[Edit] = [
@@ -275,6 +313,9 @@ EDITS: List[Edit] = [
     ("marks", e_marks),
     ("remove-optional", e_remove_optional),
     ("literal-optional-middle", e_literal_optional_middle),
+    ("name-shapes", e_name_shapes),
+    ("nested-containers", e_nested_containers),
+    ("message-shapes", e_message_shapes),
 ]
 
 
